@@ -1613,8 +1613,7 @@ forward_query(int bind_fd, struct query *q)
 	char buf[64*1024];
 	int len;
 	struct fw_query fwq;
-	struct sockaddr_in *myaddr;
-	in_addr_t newaddr;
+	struct sockaddr_in dest;
 
 	len = dns_encode(buf, sizeof(buf), q, QR_QUERY, q->name, strlen(q->name));
 	if (len < 1) {
@@ -1628,16 +1627,18 @@ forward_query(int bind_fd, struct query *q)
 	fwq.id = q->id;
 	fw_query_put(&fwq);
 
-	newaddr = inet_addr("127.0.0.1");
-	myaddr = (struct sockaddr_in *) &(q->from);
-	memcpy(&(myaddr->sin_addr), &newaddr, sizeof(in_addr_t));
-	myaddr->sin_port = htons(bind_port);
+	/* The asker may have used IPv6; the local DNS server is always
+	   reached over IPv4 loopback */
+	memset(&dest, 0, sizeof(dest));
+	dest.sin_family = AF_INET;
+	dest.sin_addr.s_addr = inet_addr("127.0.0.1");
+	dest.sin_port = htons(bind_port);
 
 	if (debug >= 2) {
 		fprintf(stderr, "TX: NS reply \n");
 	}
 
-	if (sendto(bind_fd, buf, len, 0, (struct sockaddr*)&q->from, q->fromlen) <= 0) {
+	if (sendto(bind_fd, buf, len, 0, (struct sockaddr*)&dest, sizeof(dest)) <= 0) {
 		warn("forward query error");
 	}
 }
